@@ -191,7 +191,7 @@ static std::string run_solve(const Sx& c) {
   }
   if (op == 8) {
     AMatrixDense* A = mkDense(2, c[4]); CholeskyDense ch((MatrixSquareSymmetric*) A);
-    AMatrixDense* R = mkDense(0, c[6]); MatrixRectangular X;
+    AMatrixDense* R = mkDense(0, c[6]); MatrixRectangular X(3, 2); X.fill(7.);
     ch.matProductInPlace((int) c[3].i(), *(MatrixRectangular*) R, X);
     return outM(X);
   }
@@ -251,6 +251,72 @@ static std::string run_factor(const Sx& c) {
   return "(-997 1)";
 }
 
+
+// sessions: a pool of matrices, a short sequence of in-place operations whose matrix operands are pool INDICES (so the
+// same object can be passed twice, or the receiver itself as an operand); the receiver is printed after every step.
+// Step results are streamed to the parent ("S|r1|r2|...|E") so that the steps before a crash are kept.
+static int g_fd = -1;
+static void emit(const std::string& s) { size_t off = 0; while (off < s.size()) { ssize_t w = write(g_fd, s.data() + off, s.size() - off); if (w <= 0) break; off += (size_t) w; } }
+static std::string run_session(const Sx& c) {
+  int fam = (int) c[2].i();            // 0 dense classes, 1 MatrixSparse(csparse), 2 MatrixSparse(Eigen)
+  emit("S|");
+  if (fam == 0) {
+    std::vector<AMatrixDense*> P;
+    for (auto& e : c[3].l) P.push_back(mkDense((int) e[0].i(), e[1]));
+    for (auto& st : c[4].l) {
+      long long op = st[0].i(); bool gen = st[1].b(); AMatrixDense* R = P[(size_t) st[2].i()];
+      AMatrixDense* X = P[(size_t) st[3].i()]; AMatrixDense* Y = P[(size_t) st[4].i()];
+      bool tx = st[5].b(), ty = st[6].b(); VectorDouble v = st[7].vd(); double c1 = st[8].d(), c2 = st[9].d();
+      std::string r;
+      try {
+        switch (op) {
+        case 22: if (gen) R->AMatrix::prodMatMatInPlace(X, Y, tx, ty); else R->prodMatMatInPlace(X, Y, tx, ty); break;
+        case 220: if (gen) R->AMatrix::prodMatMatInPlace(R, Y, false, ty); else R->prodMatInPlace(Y, ty); break;
+        case 23: if (gen) R->AMatrix::prodNormMatMatInPlace(X, Y, tx); else R->prodNormMatMatInPlace(X, Y, tx); break;
+        case 24: if (gen) R->AMatrix::prodNormMatVecInPlace(*X, v, tx); else R->prodNormMatVecInPlace(*X, v, tx); break;
+        case 16: if (gen) R->AMatrix::addMatInPlace(*X, c1, c2); else R->addMatInPlace(*X, c1, c2); break;
+        case 17: R->linearCombination(c1, X, c2, Y); break;
+        case 9: R->transposeInPlace(); break;
+        case 10: if (gen) R->AMatrix::addScalar(c1); else R->addScalar(c1); break;
+        case 11: if (gen) R->AMatrix::prodScalar(c1); else R->prodScalar(c1); break;
+        case 12: if (gen) R->AMatrix::multiplyRow(v); else R->multiplyRow(v); break;
+        case 13: if (gen) R->AMatrix::multiplyColumn(v); else R->multiplyColumn(v); break;
+        default: emit("(-997 1)|"); continue;
+        }
+        r = outM(*R);
+      } catch (...) { r = "(1)"; }
+      emit(r + "|");
+    }
+  } else {
+    int be = fam == 2 ? 1 : 0;
+    std::vector<MatrixSparse*> P;
+    for (auto& e : c[3].l) P.push_back(mkSparse(be, e));
+    for (auto& st : c[4].l) {
+      long long op = st[0].i(); MatrixSparse* R = P[(size_t) st[2].i()];
+      MatrixSparse* X = P[(size_t) st[3].i()]; MatrixSparse* Y = P[(size_t) st[4].i()];
+      bool tx = st[5].b(), ty = st[6].b(); VectorDouble v = st[7].vd(); double c1 = st[8].d(), c2 = st[9].d();
+      std::string r;
+      try {
+        switch (op) {
+        case 22: R->prodMatMatInPlace(X, Y, tx, ty); break;
+        case 220: R->prodMatInPlace(Y, ty); break;
+        case 23: R->prodNormMatMatInPlace(X, Y, tx); break;
+        case 16: R->addMatInPlace(*X, c1, c2); break;
+        case 9: R->transposeInPlace(); break;
+        case 11: R->prodScalar(c1); break;
+        case 12: R->multiplyRow(v); break;
+        case 13: R->multiplyColumn(v); break;
+        default: emit("(-997 1)|"); continue;
+        }
+        r = outM(*R);
+      } catch (...) { r = "(1)"; }
+      emit(r + "|");
+    }
+  }
+  emit("E");
+  return "";
+}
+
 static std::string run_case(const Sx& c) {
   long long kind = c[0].i();
   if (kind != 3) set_threads((int) c[1].i());
@@ -261,6 +327,7 @@ static std::string run_case(const Sx& c) {
     if (kind == 4) return run_solve(c);
     if (kind == 5) return run_large(c);
     if (kind == 6) return run_factor(c);
+    if (kind == 7) return run_session(c);
   } catch (...) { return "(1)"; }
   return "(-997 0)";
 }
@@ -272,7 +339,7 @@ static std::string run(const Sx& c) {
   pid_t p = fork();
   if (p < 0) return "(-995 1)";
   if (p == 0) {
-    close(fd[0]); alarm(60);
+    close(fd[0]); alarm(60); g_fd = fd[1];
     std::string r;
     try { r = run_case(c); } catch (...) { r = "(1)"; }
     size_t off = 0; while (off < r.size()) { ssize_t w = write(fd[1], r.data() + off, r.size() - off); if (w <= 0) break; off += (size_t) w; }
@@ -283,6 +350,17 @@ static std::string run(const Sx& c) {
   while ((k = read(fd[0], buf, sizeof buf)) > 0) r.append(buf, (size_t) k);
   close(fd[0]);
   int st = 0; waitpid(p, &st, 0);
+  if (r.rfind("S|", 0) == 0) {
+    // streamed session: keep the completed steps, mark the step that did not complete
+    std::ostringstream o; o << "(0"; size_t pos = 2; bool done = false;
+    while (pos < r.size()) {
+      size_t bar = r.find('|', pos);
+      if (bar == std::string::npos) { done = (r.substr(pos) == "E"); break; }
+      o << " " << r.substr(pos, bar - pos); pos = bar + 1;
+    }
+    if (!done) o << " (-996 " << (WIFSIGNALED(st) ? WTERMSIG(st) : 0) << ")";
+    o << ")"; return o.str();
+  }
   if (WIFSIGNALED(st)) { std::ostringstream o; o << "(-996 " << WTERMSIG(st) << ")"; return o.str(); }
   if (!WIFEXITED(st) || WEXITSTATUS(st) != 0 || r.empty()) { std::ostringstream o; o << "(-996 " << -WEXITSTATUS(st) << ")"; return o.str(); }
   return r;
